@@ -3,6 +3,7 @@ package c18
 import (
 	"errors"
 	"fmt"
+	"io"
 	"net/http"
 	"strings"
 
@@ -43,7 +44,13 @@ const (
 	h500       = "500"
 	hTransport = "transport-error"
 	hTimeout   = "timeout"
+	// status line and headers of a changed version arrive, then the connection dies in the middle of the body
+	hBodyCut = "200-connection-lost-inside-body"
 )
+
+type failingReader struct{}
+
+func (failingReader) Read([]byte) (int, error) { return 0, io.ErrUnexpectedEOF }
 
 type httpSystem struct {
 	cacheOn  bool
@@ -53,7 +60,7 @@ type httpSystem struct {
 
 func newHTTPSystem(cacheOn, thorough bool) *httpSystem {
 	s := &httpSystem{cacheOn: cacheOn, thorough: thorough}
-	s.outcomes = []string{cV1, cV2, cRJ, cEmpty, cInv, hUCT, h404, h500, hTransport, hTimeout}
+	s.outcomes = []string{cV1, cV2, cRJ, cEmpty, cInv, hUCT, h404, h500, hTransport, hTimeout, hBodyCut}
 
 	if thorough {
 		s.outcomes = append(s.outcomes, cBad, hEmptyNoCT, hJSONCT)
@@ -177,6 +184,14 @@ func respond(outcome string) (env.Responder, obs) {
 		return func(*env.Recorded) (*http.Response, error) { return nil, errConnRefused }, obs{class: oTransport}
 	case hTimeout:
 		return func(*env.Recorded) (*http.Response, error) { return nil, timeoutErr{} }, obs{class: oTimeout}
+	case hBodyCut:
+		return func(*env.Recorded) (*http.Response, error) {
+			body := contentBytes[cV2]
+			resp := env.Reply(nil, http.StatusOK, "application/yaml", body)
+			resp.Body = io.NopCloser(io.MultiReader(strings.NewReader(body[:len(body)/2]), failingReader{}))
+
+			return resp, nil
+		}, obs{class: oTransport}
 	}
 
 	panic("unknown outcome " + outcome)
